@@ -150,7 +150,7 @@ fn shape_lens(n_max: usize, s_max: usize) -> Vec<Vec<usize>> {
 }
 
 pub fn run_c09(ctx: &mut Ctx) {
-    let (n_max, s_max) = if ctx.quick() { (96, 1 << 12) } else { (1024, 1 << 15) };
+    let (n_max, s_max) = if ctx.quick() { (96, 1 << 12) } else { (320, 1 << 14) };
     let mut item = 0;
     for b in shape_lens(n_max, s_max) {
         for elem in ["f32", "f64"] {
